@@ -143,6 +143,7 @@ type wkbField struct {
 	width int // 1 byte-order mark, 4 type word or count word
 	kind  string
 	root  bool
+	le    bool // byte order of the element the field belongs to
 }
 
 // wkbFields walks a valid WKB document and lists its header fields.
@@ -157,14 +158,14 @@ func wkbFields(b []byte) []wkbField {
 	}
 	walk = func(pos int, root bool) int {
 		le := b[pos] == 1
-		out = append(out, wkbField{pos, 1, "bo", root})
+		out = append(out, wkbField{pos, 1, "bo", root, le})
 		code := u32(pos+1, le)
-		out = append(out, wkbField{pos + 1, 4, "type", root})
+		out = append(out, wkbField{pos + 1, 4, "type", root, le})
 		pos += 5
 		dim := []int{2, 3, 3, 4}[code/1000]
 		seq := func(root bool) {
 			n := int(u32(pos, le))
-			out = append(out, wkbField{pos, 4, "count", root})
+			out = append(out, wkbField{pos, 4, "count", root, le})
 			pos += 4 + 8*dim*n
 		}
 		switch code % 1000 {
@@ -174,14 +175,14 @@ func wkbFields(b []byte) []wkbField {
 			seq(root)
 		case 3:
 			n := int(u32(pos, le))
-			out = append(out, wkbField{pos, 4, "count", root})
+			out = append(out, wkbField{pos, 4, "count", root, le})
 			pos += 4
 			for i := 0; i < n; i++ {
 				seq(false)
 			}
 		default:
 			n := int(u32(pos, le))
-			out = append(out, wkbField{pos, 4, "count", root})
+			out = append(out, wkbField{pos, 4, "count", root, le})
 			pos += 4
 			for i := 0; i < n; i++ {
 				pos = walk(pos, false)
@@ -278,6 +279,70 @@ func (g *gen) genWKB(corpus []corpusEntry, n int) {
 				for _, v := range boundaryBytes(doc[off]) {
 					if v != doc[off] {
 						g.add("subbnd", f, withByte(doc, off, v))
+					}
+				}
+			}
+		}
+	}
+	// two-fault sequences on short documents: a type word with flag bits / out-of-table codes (the
+	// PostGIS EWKB flags 0x80000000 Z, 0x40000000 M, 0x20000000 SRID and their combinations, with
+	// and without the SRID word EWKB puts behind the type; ISO codes beyond 3007) or a count with a
+	// boundary value, at the root and at nested members, in the element's own byte order - and
+	// then every truncation within the 6 bytes that follow the changed field (a reader that peeks
+	// behind the field without a length check fails exactly there)
+	for _, c := range corpus {
+		if !(c.core || c.semi || g.thorough) {
+			continue
+		}
+		node := lib.NodeOf(c.g)
+		for di, doc := range [][]byte{c.g.AsBinary(), node.WKBMixed(func() bool { return false })} {
+			if len(doc) > 200 && !g.thorough {
+				continue
+			}
+			for _, fl := range wkbFields(doc) {
+				if fl.width != 4 {
+					continue
+				}
+				put := func(v uint32) []byte {
+					var w [4]byte
+					if fl.le {
+						binary.LittleEndian.PutUint32(w[:], v)
+					} else {
+						binary.BigEndian.PutUint32(w[:], v)
+					}
+					return w[:]
+				}
+				var cur uint32
+				if fl.le {
+					cur = binary.LittleEndian.Uint32(doc[fl.off:])
+				} else {
+					cur = binary.BigEndian.Uint32(doc[fl.off:])
+				}
+				var variants [][]byte // the document after the first fault
+				if fl.kind == "type" {
+					t := cur % 1000
+					for _, v := range []uint32{cur | 0x80000000, cur | 0x40000000, cur | 0x20000000, cur | 0xC0000000,
+						cur | 0xA0000000, cur | 0x60000000, cur | 0xE0000000, t | 0x20000000, t | 0x10000000, t | 0x08000000,
+						4000 + t, 3008, 7000 + t, 1000000 + t, cur + 1000, t + 0x20000000 + 1000} {
+						variants = append(variants, splice(doc, fl.off, 4, put(v)))
+					}
+					// real EWKB: SRID flag and the SRID word behind the type
+					for _, v := range []uint32{t | 0x20000000, t | 0xA0000000, cur | 0x20000000} {
+						variants = append(variants, splice(doc, fl.off, 4, append(put(v), put(4326)...)))
+					}
+				} else {
+					if di == 1 && !g.thorough && !fl.root {
+						continue
+					}
+					for _, v := range counts32 {
+						variants = append(variants, splice(doc, fl.off, 4, put(v)))
+					}
+					variants = append(variants, splice(doc, fl.off, 4, put(cur+1)))
+				}
+				for _, m := range variants {
+					g.add("fault2_full", f, m)
+					for k := fl.off + 4; k < len(m) && k <= fl.off+4+5; k++ {
+						g.add("fault2", f, m[:k])
 					}
 				}
 			}
